@@ -12,6 +12,7 @@ ghost var objKind mmap[string]string
 ghost var ver int
 ghost var apiLocked bool
 ghost var versionHeader int
+ghost var v0 int
 
 func (s *Server) Lock()
   trusted
@@ -44,11 +45,22 @@ func (s *Server) _deleteObject(name string)
   modifies objs
   ensures objs == old(store(objs, name, 0))
 
-func (s *Server) _plusOneVersion() (v int64)
+// the config version lives in the cluster store (ver is its stored value): every mutation reads it back from
+// the store - other members bump it too - and writes the next number under the cluster mutex
+func (s *Server) _getVersion() (v int64)
   trusted
   requires under-cluster-mutex: apiLocked
-  modifies ver
-  ensures ver == old(ver) + 1 && v == ver
+  ensures reads-the-stored-version: v == ver
+
+func (s *Server) _plusOneVersion() (v int64)
+  requires under-cluster-mutex: apiLocked
+  requires s != nil && s.cluster != nil
+  modifies ver, v0, gPuts, gPutKey, gPutVal, gPutFailed
+  panics_only_if the-store-refused-the-write: gPutFailed
+  ensures next-version-after-the-stored-one: v == old(ver) + 1 && ver == v
+  ensures written-back-to-the-version-key-once: gPuts == old(gPuts) + 1 && gPutKey == cluster.cfgVersionKey() && gPutVal == decimal(old(ver) + 1)
+  ghost at call[1] Put: ver := (err == nil ? v0 + 1 : ver)
+  ghost at entry: v0 := ver
 
 func (s *Server) readObjectSpec(w http.ResponseWriter, r *http.Request) (spec *supervisor.Spec, err error)
   trusted
@@ -61,8 +73,8 @@ func HandleAPIError(w http.ResponseWriter, r *http.Request, code int, err error)
   ensures wroteStatus == code
 
 func (s *Server) upgradeConfigVersion(w http.ResponseWriter, r *http.Request)
-  requires apiLocked && w != nil
-  modifies ver, versionHeader, allof("map<string,[]string>#dom"), allof("map<string,[]string>#card"), allof("map<string,[]string>#val#arr"), allof("map<string,[]string>#val#len"), allof("map<string,[]string>#val#cap"), allof("elem<string>")
+  requires apiLocked && w != nil && s != nil && s.cluster != nil
+  modifies ver, v0, gPuts, gPutKey, gPutVal, gPutFailed, versionHeader, allof("map<string,[]string>#dom"), allof("map<string,[]string>#card"), allof("map<string,[]string>#val#arr"), allof("map<string,[]string>#val#len"), allof("map<string,[]string>#val#cap"), allof("elem<string>")
   ensures ver == old(ver) + 1 && versionHeader == ver
   ghost at call[1] _plusOneVersion: versionHeader := v
 
@@ -72,8 +84,8 @@ ghost var gKind string
 ghost var gReadFailed bool
 
 func (s *Server) createObject(w http.ResponseWriter, r *http.Request)
-  requires s != nil && w != nil && r != nil && r.URL != nil && !apiLocked
-  modifies objs, objKind, ver, versionHeader, apiLocked, wroteStatus, gName, gSpec, gKind, gReadFailed, allof("map<string,[]string>#dom"), allof("map<string,[]string>#card"), allof("map<string,[]string>#val#arr"), allof("map<string,[]string>#val#len"), allof("map<string,[]string>#val#cap"), allof("elem<string>")
+  requires s != nil && s.cluster != nil && w != nil && r != nil && r.URL != nil && !apiLocked
+  modifies objs, objKind, ver, v0, gPuts, gPutKey, gPutVal, gPutFailed, versionHeader, apiLocked, wroteStatus, gName, gSpec, gKind, gReadFailed, allof("map<string,[]string>#dom"), allof("map<string,[]string>#card"), allof("map<string,[]string>#val#arr"), allof("map<string,[]string>#val#len"), allof("map<string,[]string>#val#cap"), allof("elem<string>")
   ensures mutex-released: !apiLocked
   ensures bad-body-changes-nothing: gReadFailed ==> objs == old(objs) && ver == old(ver) && wroteStatus == 400
   ensures existing-name-is-409-and-changes-nothing: let g = gName in (let sp = gSpec in (!gReadFailed && old(objs[g]) != 0 ==> wroteStatus == 409 && objs == old(objs) && ver == old(ver)))
@@ -83,8 +95,8 @@ func (s *Server) createObject(w http.ResponseWriter, r *http.Request)
   ghost at call[1] Name: gName := n
 
 func (s *Server) updateObject(w http.ResponseWriter, r *http.Request)
-  requires s != nil && w != nil && r != nil && !apiLocked
-  modifies objs, objKind, ver, versionHeader, apiLocked, wroteStatus, gName, gSpec, gKind, gReadFailed, allof("map<string,[]string>#dom"), allof("map<string,[]string>#card"), allof("map<string,[]string>#val#arr"), allof("map<string,[]string>#val#len"), allof("map<string,[]string>#val#cap"), allof("elem<string>")
+  requires s != nil && s.cluster != nil && w != nil && r != nil && !apiLocked
+  modifies objs, objKind, ver, v0, gPuts, gPutKey, gPutVal, gPutFailed, versionHeader, apiLocked, wroteStatus, gName, gSpec, gKind, gReadFailed, allof("map<string,[]string>#dom"), allof("map<string,[]string>#card"), allof("map<string,[]string>#val#arr"), allof("map<string,[]string>#val#len"), allof("map<string,[]string>#val#cap"), allof("elem<string>")
   ensures mutex-released: !apiLocked
   ensures bad-body-changes-nothing: gReadFailed ==> objs == old(objs) && ver == old(ver) && wroteStatus == 400
   ensures missing-name-is-404-and-changes-nothing: let g = gName in (let sp = gSpec in (!gReadFailed && old(objs[g]) == 0 ==> wroteStatus == 404 && objs == old(objs) && ver == old(ver)))
@@ -95,8 +107,8 @@ func (s *Server) updateObject(w http.ResponseWriter, r *http.Request)
   ghost at call[1] readObjectSpec: gKind := (spec == nil ? "" : spec.meta.Kind)
   ghost at call[1] Name: gName := n
 func (s *Server) deleteObject(w http.ResponseWriter, r *http.Request)
-  requires s != nil && w != nil && r != nil && !apiLocked
-  modifies objs, objKind, ver, versionHeader, apiLocked, wroteStatus, gName, gSpec, gKind, gReadFailed, allof("map<string,[]string>#dom"), allof("map<string,[]string>#card"), allof("map<string,[]string>#val#arr"), allof("map<string,[]string>#val#len"), allof("map<string,[]string>#val#cap"), allof("elem<string>")
+  requires s != nil && s.cluster != nil && w != nil && r != nil && !apiLocked
+  modifies objs, objKind, ver, v0, gPuts, gPutKey, gPutVal, gPutFailed, versionHeader, apiLocked, wroteStatus, gName, gSpec, gKind, gReadFailed, allof("map<string,[]string>#dom"), allof("map<string,[]string>#card"), allof("map<string,[]string>#val#arr"), allof("map<string,[]string>#val#len"), allof("map<string,[]string>#val#cap"), allof("elem<string>")
   ensures mutex-released: !apiLocked
   ensures missing-name-is-404-and-changes-nothing: let g = gName in (old(objs[g]) == 0 ==> wroteStatus == 404 && objs == old(objs) && ver == old(ver))
   ensures existing-name-is-removed-with-next-version: let g = gName in (old(objs[g]) != 0 ==> objs == old(store(objs, g, 0)) && ver == old(ver) + 1 && versionHeader == ver)
